@@ -559,6 +559,143 @@ func selectVersionExpr(repo string) (string, error) {
 	return "", fmt.Errorf("protocol.go: (ApiKey).SelectVersion not found")
 }
 
+// updateCompare classifies how (*connPool).update decides that a broker known under the same id has changed:
+// "whole" for `<local> != <local>` (the two Broker structs compared as a whole), "fields:<A>,<B>" when only
+// fields are compared, "other" otherwise.
+func updateCompare(repo string) (string, error) {
+	fset := token.NewFileSet()
+	f, err := parser.ParseFile(fset, filepath.Join(repo, "transport.go"), nil, 0)
+	if err != nil {
+		return "", err
+	}
+	for _, d := range f.Decls {
+		fd, ok := d.(*ast.FuncDecl)
+		if !ok || fd.Body == nil || fd.Name.Name != "update" || recvName(fd) != "connPool" {
+			continue
+		}
+		res := ""
+		ast.Inspect(fd.Body, func(n ast.Node) bool {
+			rs, ok := n.(*ast.RangeStmt)
+			if !ok || !strings.HasSuffix(exprString(rs.X), ".Brokers") || rs.Value == nil {
+				return true
+			}
+			for _, st := range rs.Body.List {
+				is, ok := st.(*ast.IfStmt)
+				if !ok || is.Init == nil {
+					continue
+				}
+				if el, ok := is.Else.(*ast.IfStmt); ok {
+					var fields []string
+					whole, other := false, false
+					ast.Inspect(el.Cond, func(m ast.Node) bool {
+						b, ok := m.(*ast.BinaryExpr)
+						if !ok {
+							return true
+						}
+						switch b.Op {
+						case token.NEQ:
+							_, li := b.X.(*ast.Ident)
+							_, ri := b.Y.(*ast.Ident)
+							ls, lsel := b.X.(*ast.SelectorExpr)
+							rsel, rselok := b.Y.(*ast.SelectorExpr)
+							switch {
+							case li && ri:
+								whole = true
+							case lsel && rselok && ls.Sel.Name == rsel.Sel.Name:
+								fields = append(fields, ls.Sel.Name)
+							default:
+								other = true
+							}
+							return false
+						case token.LOR:
+							return true
+						default:
+							other = true
+							return false
+						}
+					})
+					switch {
+					case other:
+						res = "other"
+					case whole:
+						res = "whole"
+					case len(fields) > 0:
+						sort.Strings(fields)
+						res = "fields:" + strings.Join(fields, ",")
+					}
+				}
+			}
+			return true
+		})
+		if res == "" {
+			return "", fmt.Errorf("transport.go update: broker comparison not found")
+		}
+		return res, nil
+	}
+	return "", fmt.Errorf("transport.go: (*connPool).update not found")
+}
+
+// brokerConnGuard translates the condition under which sendRequest uses a per-broker connection
+// (`if <id> <op> <int> { … grabBrokerConn … }`) into a Lean proposition over `brokerID`.
+func brokerConnGuard(repo string) (string, error) {
+	fset := token.NewFileSet()
+	f, err := parser.ParseFile(fset, filepath.Join(repo, "transport.go"), nil, 0)
+	if err != nil {
+		return "", err
+	}
+	for _, d := range f.Decls {
+		fd, ok := d.(*ast.FuncDecl)
+		if !ok || fd.Body == nil || fd.Name.Name != "sendRequest" || recvName(fd) != "connPool" {
+			continue
+		}
+		out, bad := "", ""
+		ast.Inspect(fd.Body, func(n ast.Node) bool {
+			is, ok := n.(*ast.IfStmt)
+			if !ok {
+				return true
+			}
+			calls := false
+			ast.Inspect(is.Body, func(m ast.Node) bool {
+				if c, ok := m.(*ast.CallExpr); ok && strings.HasSuffix(exprString(c.Fun), ".grabBrokerConn") {
+					calls = true
+				}
+				return true
+			})
+			if !calls {
+				return true
+			}
+			b, ok := is.Cond.(*ast.BinaryExpr)
+			if !ok {
+				bad = "condition is not a comparison"
+				return false
+			}
+			op := map[token.Token]string{token.LSS: "<", token.GTR: ">", token.LEQ: "≤", token.GEQ: "≥", token.EQL: "=", token.NEQ: "≠"}[b.Op]
+			_, lid := b.X.(*ast.Ident)
+			v, vok := litValue(b.Y)
+			neg := false
+			if u, ok := b.Y.(*ast.UnaryExpr); ok && u.Op == token.SUB {
+				v, vok = litValue(u.X)
+				neg = true
+			}
+			if op == "" || !lid || !vok {
+				bad = "comparison outside the translated subset"
+				return false
+			}
+			lit := strconv.FormatUint(v, 10)
+			if neg {
+				lit = "-" + lit
+			}
+			out = "brokerID " + op + " " + lit
+			return false
+		})
+		if bad != "" || out == "" {
+			return "", fmt.Errorf("transport.go sendRequest: broker connection guard: %s", bad)
+		}
+		return out, nil
+	}
+	return "", fmt.Errorf("transport.go: (*connPool).sendRequest not found")
+}
+
 func extractRouting(repo, root string) error {
 	keys, err := apiKeyConsts(repo)
 	if err != nil {
@@ -767,6 +904,30 @@ func extractRouting(repo, root string) error {
 	}
 	b.WriteString("/-- protocol/protocol.go (ApiKey).SelectVersion translated statement by statement: `cmin`/`cmax` are\n`k.MinVersion()`/`k.MaxVersion()`, `bmin`/`bmax` the two parameters (the broker's advertised range) -/\n")
 	fmt.Fprintf(&b, "def selectVersionSrc (cmin cmax bmin bmax : Int) : Int :=\n  %s\n\n", sv)
+	cmp, err := updateCompare(repo)
+	if err != nil {
+		return err
+	}
+	b.WriteString("/-- how (*connPool).update decides that a broker known under the same id has changed -/\n")
+	b.WriteString("inductive BrokerCompare where\n  | whole | fields (fs : List String) | other\n  deriving DecidableEq, Repr, Inhabited\n\n")
+	switch {
+	case cmp == "whole":
+		b.WriteString("def updateCompare : BrokerCompare := .whole\n\n")
+	case strings.HasPrefix(cmp, "fields:"):
+		var fs []string
+		for _, x := range strings.Split(strings.TrimPrefix(cmp, "fields:"), ",") {
+			fs = append(fs, strconv.Quote(x))
+		}
+		fmt.Fprintf(&b, "def updateCompare : BrokerCompare := .fields [%s]\n\n", strings.Join(fs, ", "))
+	default:
+		b.WriteString("def updateCompare : BrokerCompare := .other\n\n")
+	}
+	guard, err := brokerConnGuard(repo)
+	if err != nil {
+		return err
+	}
+	b.WriteString("/-- transport.go sendRequest: the condition under which the request goes over a connection of the broker's own\ngroup (`grabBrokerConn`) rather than over the control connection -/\n")
+	fmt.Fprintf(&b, "def usesBrokerConn (brokerID : Int) : Bool := decide (%s)\n\n", guard)
 	exits, err := discoverExits(repo)
 	if err != nil {
 		return err
